@@ -177,6 +177,10 @@ def run(prop, tier, seed, replay=None):
                      "passed the metainfo hash'", "bounds: 2-3 pieces of 1-2 (abstract) chunks, 2-4 threads, one operation "
                      "per thread in TLC-generated behaviours, 4 per thread in random schedules",
                      "yield points are the only places where goroutines are interleaved by the gated replay"]
+    if replay and json.load(open(replay))["scenario"].get("binding") == "gexpire":
+        import p_expire
+        p_expire.global_expire(v, tier, seed, [json.load(open(replay))["scenario"]])
+        return v.finish()
     if replay and json.load(open(replay))["scenario"].get("binding") == "upload":
         import p_upload
         p_upload.payload_check(v, tier, seed, [json.load(open(replay))["scenario"]])
@@ -261,6 +265,9 @@ def run(prop, tier, seed, replay=None):
     if not replay and stress_stats["reads_returning_data"] == 0:
         raise Internal("free-running stress never read any data (vacuous)")
     validate_traces(v, prop, events, scen_by_id)
+    if prop == "C03" and not replay:
+        import p_expire
+        p_expire.global_expire(v, tier, seed)
     if prop == "C01" and not replay:
         import p_upload
         p_upload.payload_check(v, tier, seed)
